@@ -1053,3 +1053,17 @@ Proof.
       destruct (Nat.eq_dec i (length (attempts tr))) as [->|Hne]; [|apply Hpre; lia].
       match goal with Hg : generic_retry _ _ _ = DWait _ |- _ => apply generic_retry_wait_lt in Hg; apply Hg end.
 Qed.
+
+(* an ill-formed policy (MinWait > MaxWait): every pause is MaxWait *)
+Lemma generic_retry_min_gt_max p attempt o d :
+  p_max p < p_min p -> generic_retry p attempt o = DWait d -> d = p_max p.
+Proof.
+  intro H. unfold generic_retry.
+  destruct (attempt >=? p_max_retry p); [discriminate|].
+  destruct (p_pred p o); try discriminate.
+  destruct (p_backoff p attempt o) as [x|]; [|discriminate].
+  intro E. injection E as <-. unfold clamp.
+  destruct (x <? p_min p) eqn:E1.
+  - destruct (p_min p >? p_max p) eqn:E2; lia.
+  - destruct (x >? p_max p) eqn:E2; lia.
+Qed.
